@@ -2,4 +2,4 @@
 in lock-step with M1, judged by the oracles of harness/simengine/monitors.py)."""
 from ..e1 import E1Part
 
-PROP = E1Part("C01", [("mixed",3),("crash",2),("contain",1),("kill",1),("init",1),("leak",1),("break",1),("graceful",1),("timeouts",2),("respawn",2)], ["C01"], ["LokyModel.Props.C01"], quick=1600, thorough=40000, starve=0)
+PROP = E1Part("C01", [("mixed",3),("crash",2),("contain",1),("kill",1),("init",1),("leak",1),("break",1),("graceful",1),("timeouts",2),("respawn",2),("callback",2)], ["C01"], ["LokyModel.Props.C01"], quick=1600, thorough=40000, starve=0)
